@@ -724,8 +724,10 @@ def observer(tier, seed):
     res["explanation"] = (
         "contract-based deductive verification of the clamp functions, location_to_key, Variator.from_masters / instance_at, process_rules_swaps, "
         "collect_info/kerning/glyph_masters, Instantiator.generate_glyph_instance (cache invariant, master / blend, frame), replace_source_layers, "
-        "swap_glyph_names (outline / width / anchors exchanged, kerning and groups conjugated) and the involution lemmas of the abstract swap; "
-        "generate_instance as a whole and the component re-mapping of swap_glyph_names are covered by a BOUNDED observer on real objects "
+        "swap_glyph_names (outline / width / anchors exchanged, components, kerning and groups conjugated), __post_init__, _generate_instance_info, "
+        "generate_instance for a designspace without rules as a composition of these (glyph set, every glyph / kerning / info master-or-blend at the "
+        "normalized design location, cache invariant), the involution and swap-fold lemmas of the abstract swap, and the frame (sources never written); "
+        "generate_instance WITH rules (instance, then the swaps) and from_designspace are covered by a BOUNDED observer on real objects "
         f"({stats['instances']} instances, {stats['values']} compared numbers)"
     )
     res["trusted"] += [
